@@ -101,6 +101,7 @@ type Explorer struct {
 	onces     map[*value]bool
 	syncMaps  map[*value]*syncMapModel
 	ufCache   map[string][2]string
+	atoms     map[*value]*value
 	interp    *interpreter
 	steps     int
 	violated  bool
@@ -133,6 +134,7 @@ func (e *Explorer) resetPath() {
 	e.violated = false
 	e.freezeOn = false
 	e.ufCache = map[string][2]string{}
+	e.atoms = nil
 	e.flags = 0
 	e.frozen, e.frozenMaps, e.pooledObjs, e.monitored = nil, nil, map[*value]bool{}, map[string]bool{}
 }
